@@ -4,7 +4,7 @@ E1: `MemoryLogger` lock discipline and shared-field accesses  ->  lean/Eliot/Gen
 From the *current* AST of eliot/_output.py:
   * `exclusivelyOk`  : `exclusively(f)` is exactly  `def g(self, *a, **kw): with self._lock: return f(self, *a, **kw)`; `return g`
   * `lockOk`         : `MemoryLogger.__init__` assigns `self._lock = Lock()` with `Lock` imported from `threading`
-  * `memoryLogger`   : per method (sorted by name; class-level aliases `a = b` repeat b's entry) whether it is
+  * `memoryLogger`   : per method (sorted by name; class-level aliases `a = b` are the same function and get no row) whether it is
                        locked (decorated with exactly `@exclusively`, or its whole body is one `with self._lock:`)
                        and its ordered accesses to messages / serializers / tracebackMessages / _failed_validations:
         .append f cond   `self.f.append(x)`            (cond = under if / except / loop / boolean operator)
@@ -334,11 +334,12 @@ def skeleton(repo):
                                        def_line=fn.lineno)
         if any(k == "unknown" for k, _, _, _ in out):
             res["problems"].append("unrecognised access shape in MemoryLogger.%s" % fn.name)
-    for n in cls.body:  # aliases: flush_tracebacks = flushTracebacks
+    res["aliases"] = {}
+    for n in cls.body:  # aliases (`flush_tracebacks = flushTracebacks`) are the same function object: no own row
         if isinstance(n, ast.Assign) and isinstance(n.value, ast.Name) and n.value.id in res["methods"]:
             for t in n.targets:
                 if isinstance(t, ast.Name):
-                    res["methods"][t.id] = dict(res["methods"][n.value.id], alias_of=n.value.id)
+                    res["aliases"][t.id] = n.value.id
     if not res["exclusively_ok"]:
         res["problems"].append("`exclusively` is not `with self._lock: return f(self, *a, **kw)`: decorated methods count as unlocked")
     if not res["lock_ok"]:
@@ -359,8 +360,8 @@ def _lean_acc(a):
 
 def extract(repo):
     sk = skeleton(repo)
-    lines = ["/-! GENERATED by harness/extractors/e1_memory_logger.py from eliot/_output.py - do not edit. -/",
-             "import Eliot.Conc.Skel", "namespace Eliot.Generated", "open Eliot.Conc.MemLog", "",
+    lines = ["import Eliot.Conc.Skel",
+             "/-! GENERATED by harness/extractors/e1_memory_logger.py from eliot/_output.py - do not edit. -/", "namespace Eliot.Generated", "open Eliot.Conc.MemLog", "",
              "def exclusivelyOk : Bool := %s" % ("true" if sk["exclusively_ok"] else "false"),
              "def lockOk : Bool := %s" % ("true" if sk["lock_ok"] else "false"), "",
              "def memoryLogger : Table := ["]
@@ -372,5 +373,5 @@ def extract(repo):
     lines.append(",\n".join(rows))
     lines += ["]", "", "end Eliot.Generated", ""]
     report = dict(methods={n: dict(locked=m["locked"], accesses=len(m["accesses"])) for n, m in sk["methods"].items()},
-                  exclusively_ok=sk["exclusively_ok"], lock_ok=sk["lock_ok"], problems=sk["problems"])
+                  exclusively_ok=sk["exclusively_ok"], lock_ok=sk["lock_ok"], aliases=sk.get("aliases", {}), problems=sk["problems"])
     return "MemLog.lean", "\n".join(lines), report
